@@ -108,7 +108,13 @@ fn write_replay_and_exit(
     });
     let rf = ReplayFile {
         property: prop,
-        engine: if cfg!(feature = "experimental") { "parsim-exp".into() } else { "parsim".into() },
+        engine: if cfg!(feature = "experimental") {
+            "parsim-exp".into()
+        } else if cfg!(debug_assertions) {
+            "parsim-checked".into()
+        } else {
+            "parsim".into()
+        },
         verif_seed: seed,
         run_index,
         sched_index,
